@@ -46,8 +46,8 @@ def _alarm(*_a):
     raise _Timeout()
 
 
-def run_cli(argv, cwd=None, stdin_text=None, env=None, timeout=60):
-    """PyMarkdownLint().main(argv) in-process.  Returns (exit_code, stdout, stderr)."""
+def run_cli(argv, cwd=None, stdin_text=None, env=None, timeout=60, lint=None):
+    """PyMarkdownLint().main(argv) in-process (on the object `lint` when one is given).  Returns (exit_code, stdout, stderr)."""
     from pymarkdown.main import PyMarkdownLint
 
     old_cwd = os.getcwd()
@@ -71,7 +71,7 @@ def run_cli(argv, cwd=None, stdin_text=None, env=None, timeout=60):
         try:
             with contextlib.redirect_stdout(so), contextlib.redirect_stderr(se):
                 try:
-                    PyMarkdownLint().main(list(argv))
+                    (lint or PyMarkdownLint()).main(list(argv))
                     code = 0
                 except SystemExit as e:
                     code = e.code if isinstance(e.code, int) else (0 if e.code is None else 1)
